@@ -1174,6 +1174,54 @@ def checkpoint_resume(doc):
                                 f'result {got_res!r}; uninterrupted: calls {want_calls} result {want_res!r}')
         return await plain_process_resume()
 
+    async def resume_twice():
+        """the SAME stored checkpoint resumed twice in a row (the first resumed run mutates its context in place): both runs are
+        the uninterrupted one; for the in-memory and the pickle persister"""
+        import shutil
+        import tempfile
+        from plumpy.workchains import WorkChain
+
+        class TW(WorkChain):
+            @classmethod
+            def define(cls, spec):
+                super().define(spec)
+                spec.outline(cls.a, cls.b, cls.c)
+
+            def a(self):
+                self.ctx.trace = ['a']
+                self.ctx.nested = {'seen': []}
+
+            def b(self):
+                self.ctx.trace.append('b')
+                self.ctx.nested['seen'].append('b')
+
+            def c(self):
+                self.ctx.trace.append('c')
+        TW.__qualname__ = TW.__name__ = 'TwiceW'
+        TW.__module__ = 'rprocs'
+        setattr(rprocs, 'TwiceW', TW)
+        tmp = tempfile.mkdtemp(prefix='pyvc_replay_')
+        try:
+            for name, pers in (('in-memory', plumpy.InMemoryPersister()), ('pickle', plumpy.PicklePersister(tmp))):
+                for nsteps in (1, 2, 3):
+                    w = TW()
+                    for _ in range(nsteps):
+                        await w.step()
+                    pers.save_checkpoint(w)
+                    ref = TW()
+                    await asyncio.wait_for(ref.step_until_terminated(), 10)
+                    want = (list(ref.ctx.trace), dict(ref.ctx.nested))
+                    for attempt in (1, 2, 3):
+                        l = pers.load_checkpoint(w.pid).unbundle()
+                        await asyncio.wait_for(l.step_until_terminated(), 10)
+                        got = (list(l.ctx.trace), dict(l.ctx.nested))
+                        if got != want:
+                            return (f'{name} persister: checkpoint taken after {nsteps} steps, resumed for the {attempt}. time: context {got}; '
+                                    f'the uninterrupted run ends with {want}')
+        finally:
+            shutil.rmtree(tmp, ignore_errors=True)
+        return None
+
     async def plain_process_resume():
         """a plain process (Wait / Continue continuations with arguments, steps reading inputs and writing outputs), with and
         without inputs; the external resume values are replayed after each restore"""
@@ -1225,6 +1273,9 @@ def checkpoint_resume(doc):
                 return '<%s: %r>' % (proc.state.name, proc.exception() if proc.state.name == 'EXCEPTED' else None), dict(proc.outputs), n
             return proc.result(), dict(proc.outputs), n
 
+        r = await resume_twice()
+        if r:
+            return r
         for inputs in (None, {}, {'scale': 5, 'other': [1]}):
             want_res, want_out, nsteps = await run_p(inputs, ())
             for crashes in [(i,) for i in range(nsteps)] + [(i, i + 1) for i in range(nsteps - 1)]:
@@ -2007,6 +2058,8 @@ async def _drive_history(Ctl, point, requests, errs):
                             obs['returns'].append(('kill', process.kill('enough')))
                         elif r == 'resume':
                             obs['returns'].append(('resume', process.resume('v')))
+                        elif r == 'cancel':
+                            process.future().cancel()
                     except Exception as e:  # noqa
                         obs['raised_in_listener'] = obs.get('raised_in_listener', []) + [(r, type(e).__name__)]
         obs['keep'] = L()
@@ -2045,6 +2098,8 @@ async def _drive_history(Ctl, point, requests, errs):
                     obs['trace_len_at_kill'] = len(proc.trace)
             elif r == 'resume':
                 obs['returns'].append(('resume', proc.resume('v')))
+            elif r == 'cancel':
+                proc.future().cancel()       # "cancelling the process's future has the same effect as kill()"
         except Exception as e:  # noqa
             obs['raised'].append((r, type(e).__name__, str(e)[:60]))
     if task is None:
@@ -2113,7 +2168,7 @@ def control_histories(doc):
         REF_STATUSES = ref['proc'].statuses
         if ref['task'] is not None:
             ref['task'].cancel()
-        reqs = ['pause', 'pause0', 'play', 'kill', 'resume']
+        reqs = ['pause', 'pause0', 'play', 'kill', 'resume', 'cancel']
         for point in ('created', 'paused', 'running', 'waiting', 'listener'):
             for n in ((1, 2, 3, 4) if doc.get('tier') == 'thorough' else (1, 2, 3)):
                 for requests in itertools.product(reqs, repeat=n):
@@ -2125,7 +2180,7 @@ def control_histories(doc):
                     proc = obs['proc']
                     key = f"{point}:{'+'.join(requests)}"
                     probs = []
-                    killed_asked = 'kill' in requests
+                    killed_asked = 'kill' in requests or 'cancel' in requests
                     # ---- C05
                     if 'C05' in want:
                         for r, cls_, msg in obs['raised']:
@@ -2157,14 +2212,16 @@ def control_histories(doc):
                         for r, cls_, msg in obs['raised']:
                             if r == 'kill':
                                 probs.append(('C04', 'kill-raises', f'kill() raised {cls_}: {msg}'))
-                        if killed_asked and proc.state.name not in ('KILLED', 'EXCEPTED'):
-                            probs.append(('C04', 'kill-lost', f'kill requested but the process ended {proc.state.name}'))
+                        if killed_asked and proc.state.name != 'KILLED':       # (no step of this process ever fails: EXCEPTED is no excuse)
+                            kind_ = 'kill-lost' if proc.state.name != 'EXCEPTED' else 'kill-excepts'
+                            probs.append(('C04', kind_, f'kill requested but the process ended {proc.state.name}'
+                                          + (f' with {proc.exception()!r}' if proc.state.name == 'EXCEPTED' else '')))
                         for r, v in obs['returns']:
                             if r == 'kill':
                                 rv = await _resolve(v)
                                 if (rv is True) != (proc.state.name == 'KILLED'):
                                     probs.append(('C04', 'kill-reply', f'kill() reply {rv!r} but the process ended {proc.state.name}'))
-                        if proc.state.name == 'KILLED' and killed_asked and proc.killed_msg().get('message') != 'enough':
+                        if proc.state.name == 'KILLED' and 'kill' in requests and 'cancel' not in requests and proc.killed_msg().get('message') != 'enough':
                             probs.append(('C04', 'kill-text', f'the kill text is recorded as {proc.killed_msg().get("message")!r}'))
                         if 'trace_len_at_kill' in obs and len(proc.trace) > obs['trace_len_at_kill']:
                             probs.append(('C04', 'step-after-kill', f'kill() returned True, yet step functions ran afterwards: {proc.trace[obs["trace_len_at_kill"]:]}'))
@@ -2183,7 +2240,7 @@ def control_histories(doc):
                     if 'C01' in want and 'trace_len_at_kill' in obs and (len(proc.trace) > obs['trace_len_at_kill'] or proc.state.name != 'KILLED'):
                         probs.append(('C01', 'terminal-not-final', f'kill() returned True (KILLED), afterwards: state {proc.state.name}, '
                                                                      f'steps run {proc.trace[obs["trace_len_at_kill"]:]}'))
-                    if 'C02' in want and proc.state.name == 'KILLED' and killed_asked and proc.killed_msg().get('message') != 'enough':
+                    if 'C02' in want and proc.state.name == 'KILLED' and 'kill' in requests and 'cancel' not in requests and proc.killed_msg().get('message') != 'enough':
                         probs.append(('C02', 'kill-text', f'killed_msg() reports the text {proc.killed_msg().get("message")!r}, kill() was given \'enough\''))
                     # ---- C03
                     if 'C03' in want and errs:
